@@ -14,7 +14,7 @@ Nil == [x \in {} |-> 0]
 
 Fields == {"ep", "cb", "lo", "cid", "sec", "hdr", "sc"}
 Classes(f) ==
-  CASE f = "ep"  -> {"absent", "explicit", "discovery", "partial"}
+  CASE f = "ep"  -> {"absent", "explicit", "discovery", "partial", "emptyFetcher", "emptyJwks"}
     [] f = "cb"  -> {"absent", "ok", "root", "noPath", "unparsable", "sameAsLoD"}
     [] f = "lo"  -> {"absent", "ok", "rootPath", "sameAsCb", "sameAsCbD"}
     [] f = "cid" -> {"absent", "ok", "colon"}
@@ -29,6 +29,9 @@ Absent == [f \in Fields |-> "absent"]
 EpJ(c, T) == CASE c = "explicit" -> [authorization_uri |-> "https://idp-" \o T \o ".test/authorize", token_uri |-> "https://idp-" \o T \o ".test/token", jwks |-> "{\"keys\":[]}"]
                [] c = "discovery" -> [configuration_uri |-> "https://idp-" \o T \o ".test/.well-known/openid-configuration"]
                [] c = "partial" -> [authorization_uri |-> "https://idp-" \o T \o ".test/authorize"]
+               \* both endpoints but no usable key source: a fetcher without URI / an empty static key set
+               [] c = "emptyFetcher" -> [authorization_uri |-> "https://idp-" \o T \o ".test/authorize", token_uri |-> "https://idp-" \o T \o ".test/token", jwks_fetcher |-> [periodic_fetch_interval_sec |-> 60]]
+               [] c = "emptyJwks" -> [authorization_uri |-> "https://idp-" \o T \o ".test/authorize", token_uri |-> "https://idp-" \o T \o ".test/token", jwks |-> ""]
                [] OTHER -> Nil
 CbJ(c, T) == CASE c = "ok" -> [callback_uri |-> "https://app.test/cb-" \o T]
                [] c = "root" -> [callback_uri |-> "https://app.test/"]
@@ -72,6 +75,8 @@ DocJ(doc) ==
 Eff(doc, flt, f) ==
   IF flt.type = "override" /\ doc.def.present
   THEN IF f = "ep" /\ flt.f.ep = "partial" /\ doc.def.f.ep \in {"explicit", "discovery"} THEN <<doc.def.f.ep, IF doc.def.f.ep = "explicit" THEN flt.tag ELSE "D">>
+       ELSE IF f = "ep" /\ flt.f.ep \in {"emptyFetcher", "emptyJwks", "partial"} /\ doc.def.f.ep = "discovery" THEN <<"discovery", "D">>   \* discovery supplies the keys
+       ELSE IF f = "ep" /\ flt.f.ep = "emptyJwks" /\ doc.def.f.ep = "explicit" THEN <<"explicit", flt.tag>>   \* an empty string does not override the default's static keys
        ELSE IF f = "sec" /\ flt.f.sec = "refNoName" /\ doc.def.f.sec = "ref" THEN <<"ref", "D">>
        ELSE IF flt.f[f] # "absent" THEN <<flt.f[f], flt.tag>> ELSE <<doc.def.f[f], "D">>
   ELSE <<flt.f[f], flt.tag>>
@@ -99,7 +104,7 @@ FilterMustReject(doc, flt) ==
   \/ Eff(doc, flt, "cid")[1] \in {"absent", "colon"}
   \/ Eff(doc, flt, "sec")[1] \in {"absent", "refNoName"}
   \/ EffHeader(doc, flt) = ""
-  \/ Eff(doc, flt, "ep")[1] \in {"absent", "partial"}
+  \/ Eff(doc, flt, "ep")[1] \in {"absent", "partial", "emptyFetcher", "emptyJwks"}
   \/ Eff(doc, flt, "cb")[1] \in {"absent", "root", "noPath", "unparsable"}
   \/ Eff(doc, flt, "lo")[1] = "rootPath"
   \/ (Eff(doc, flt, "lo")[1] # "absent" /\ LoPath(Eff(doc, flt, "lo")) = CbPath(Eff(doc, flt, "cb")))
